@@ -1554,6 +1554,9 @@ mod settings {
                 }
                 Err(e) => println!("@@setup failed {}", e),
             }
+            for t in T.iter() {
+                match std::env::var(t.0) { Ok(v) => println!("@@{}={}", t.0, v), Err(_) => println!("@@{} UNSET", t.0) }
+            }
             return;
         }
         crate::entry_point::set_default_values();
@@ -1786,6 +1789,15 @@ mod settings {
             let text = String::from_utf8_lossy(&out.stdout).to_string();
             let line = text.lines().find(|l| l.starts_with("@@setup")).unwrap_or("").to_string();
             // 3 workers + the main thread
+            // the settings themselves after the real Server::setup: file over environment, defaults elsewhere
+            let want: Vec<String> = (0..11).map(|i| match i { 0 => "127.0.0.2".to_string(), 1 => "0".to_string(), 2 => "3".to_string(), _ => T[i].3.to_string() }).collect();
+            for i in 0..11 {
+                let pre = format!("@@{}=", T[i].0);
+                let got = text.lines().find(|l| l.starts_with(&pre)).map(|l| l[pre.len()..].to_string());
+                if got.as_deref() != Some(want[i].as_str()) {
+                    h.hit("settings", "c12_setup", "Server::setup", "setup", &format!("after Server::setup {} is {:?}, expected {:?} (environment ip 127.0.0.3 / 5 threads, file ip 127.0.0.2 port 0 thread_count 3)", T[i].0, got, want[i]));
+                }
+            }
             if line != "@@setup ip=127.0.0.2 threads=4" && !line.starts_with("@@setup failed") {
                 h.hit("settings", "c12_setup", "Server::setup", "setup", &format!("environment ip 127.0.0.3 / 5 threads, file ip 127.0.0.2 port 0 thread_count 3: {:?}, expected \"@@setup ip=127.0.0.2 threads=4\"", line));
             }
